@@ -16,6 +16,14 @@ def main():
         from . import score4
 
         score4.main("C02")
+    elif pid == "C09":
+        from . import c09
+
+        c09.main()
+    elif pid == "C07":
+        from . import c07
+
+        c07.main()
     else:
         print("no check registered for %s" % pid)
         sys.exit(3)
